@@ -1176,6 +1176,54 @@ def run_impl(case):
                     viol.append("prepared: run %d of the prepared query (graph %s) gives %s, a freshly parsed one "
                                 "gives %s" % (k + 1, nm, _short(got), _short(want)))
                     break
+            # two evaluations of the same prepared object under different initBindings, and one of a second prepared
+            # query, started one after the other and consumed alternately, one row at a time
+            if not viol:
+                bvars = sorted(v for v in all_vars(q) if not v.startswith("?b") and not v.startswith("?c"))
+                subs_, _p, objs_ = data_terms(data)
+                if len(bvars) >= 1:
+                    va = rng.choice(bvars)
+                    vb = rng.choice([v for v in bvars if v != va] or bvars)
+                    iba = {va[1:]: TERMS[rng.choice(subs_ + objs_)]}
+                    ibb = {vb[1:]: TERMS[rng.choice(subs_ + objs_)]}
+                    q3 = rw_rename(q, rng)[0] if rng.random() < 0.5 else q
+                    q3map = None
+                    try:
+                        p3 = prepareQuery(query_text(q3, "full"))
+                        runs = [(p, iba, "initBindings %s" % iba), (p, ibb, "initBindings %s" % ibb), (p3, None, "other query")]
+                        its, rows_, live = [], [[], [], []], [True, True, True]
+                        for j, (pq, ib, _w) in enumerate(runs):     # start each, take one row
+                            its.append(iter(gA.query(pq, initBindings=ib) if ib else gA.query(pq)))
+                            try:
+                                rows_[j].append(next(its[j]))
+                            except StopIteration:
+                                live[j] = False
+                        while any(live):
+                            for j in range(3):
+                                if live[j]:
+                                    try:
+                                        rows_[j].append(next(its[j]))
+                                    except StopIteration:
+                                        live[j] = False
+                        stats["prep_interleaved_init"] = 1
+                        for j, (pq, ib, what) in enumerate(runs[:2]):
+                            got = tuple(sorted(tuple(sorted(("?" + str(k), v.n3()) for k, v in row.asdict().items()
+                                                            if v is not None)) for row in rows_[j]))
+                            want = evaluate(gA, q, init=ib)
+                            compared += 1
+                            if want[0] != "ok":
+                                continue
+                            w = tuple(sorted(r for r in want[2] if r))
+                            if got != w:
+                                viol.append("prepared-interleaved: the prepared query with %s, consumed alternately with "
+                                            "another evaluation of it, gives %d rows %s; a fresh parse gives %d rows %s"
+                                            % (what, len(got), list(got)[:3], len(w), list(w)[:3]))
+                                break
+                    except Exception as e:  # noqa: BLE001
+                        a_ = evaluate(gA, q, init=iba)
+                        b_ = evaluate(gA, q, init=ibb)
+                        if a_[0] == "ok" and b_[0] == "ok" and ref[0] == "ok":
+                            viol.append("prepared-interleaved: alternate consumption raises %s" % _exc_name(e))
             # the same graph OBJECT with other data, and other initBindings from one run to the next
             qvars = sorted(all_vars(q))
             subs, _preds, objs = data_terms(data + case["data2"])
